@@ -20,6 +20,8 @@ from .. import exactfam as E
 from .. import spectral as S
 from ..qlib import lib, q_from_float, q_to_float, omul, oherm, ofro, units, lg, EPS
 
+_BUF = {}      # per shape: the caller's pre-allocated array (see the job)
+
 MBIG = """CONSTANTS MaxDim = %d
  MaxP = 10
  MaxIter = 3
@@ -73,11 +75,19 @@ def _cell(args):
             np.random.seed(seed)
             detail = {"alg": alg, "shape": [m, n], "R": R, "oversample": P, "iters_or_passes": q, "rank": rk, "s": s, "seed": seed, "scale": sc}
             t = rec.new("rand_qsvd" if alg == "rand" else "pass_eff_qsvd", cls, detail)
+            Aq = q_from_float(A)
+            if tid0 % 2 == 0:
+                # (every call of this job, back to back: a single-slot memo is refreshed by any other object in between)
+                # the caller streams successive problems through ONE pre-allocated array (same object, new contents):
+                # nothing remembered about an earlier content of that object may be used
+                buf = _BUF.setdefault((m, n), np.zeros((m, n), dtype=np.quaternion))
+                buf[...] = Aq
+                Aq = buf
             with contextlib.redirect_stdout(io.StringIO()):
                 if alg == "rand":
-                    Uq, sq, Vq = Q.rand_qsvd(q_from_float(A), R, oversample=P, n_iter=q)
+                    Uq, sq, Vq = Q.rand_qsvd(Aq, R, oversample=P, n_iter=q)
                 else:
-                    Uq, sq, Vq = Q.pass_eff_qsvd(q_from_float(A), R, oversample=P, n_passes=q)
+                    Uq, sq, Vq = Q.pass_eff_qsvd(Aq, R, oversample=P, n_passes=q)
             Uf, Vf, sf = q_to_float(np.asarray(Uq)), q_to_float(np.asarray(Vq)), np.asarray(sq, dtype=float)
             rec.eqint(t, "Shapes", [list(Uf.shape[:2]), list(Vf.shape[:2]), int(sf.shape[0])], [[m, R], [n, R], R])
             if [list(Uf.shape[:2]), list(Vf.shape[:2]), int(sf.shape[0])] != [[m, R], [n, R], R]:
